@@ -989,6 +989,14 @@ HOSTILE_SNIPPETS = [
     "",
     "~\n",
     "segments:\n\t- name: a\n",
+    # makerom names are built by cutting the section / segment name: multi-byte characters at every cut position
+    "settings: {linker_symbols_style: makerom, alloc_sections: [.\u00f1data, .text]}\nsegments: [{name: a, files: [{path: a.o}]}]\n",
+    "settings: {linker_symbols_style: makerom, noload_sections: [\u00e9, .\U0001F600x]}\nsegments: [{name: \u00e9, files: [{path: a.o}]}]\n",
+    "settings: {linker_symbols_style: makerom}\nsegments: [{name: a, alloc_sections: ['.'], files: [{path: a.o}]}]\n",
+    "settings: {linker_symbols_style: makerom}\nsegments: [{name: a, alloc_sections: [''], files: [{path: a.o, section_order: {'': ''}}]}]\n",
+    "segments: [{name: a, files: [{kind: linker_offset, linker_offset_name: \u00e9, section: .text}, {kind: pad, pad_amount: 4294967295, section: .text}]}]\n",
+    "settings: {single_segment_mode: true}\nsegments: []\n",
+    "settings: {partial_scripts_folder: '{a', partial_build_segments_folder: 'b}'}\nsegments: [{name: a, files: [{path: '}{'}]}]\n",
 ]
 
 
@@ -1063,6 +1071,15 @@ class C19(Property):
             c["stream"] = "valid"
         c["link"] = (c["stream"] == "valid" and idx % self.link_every == 0)
         return c
+
+    def extra_cases(self, tier):
+        """every hostile snippet, in both modes, on every run (they used to be drawn at random)"""
+        out = []
+        for i, text in enumerate(HOSTILE_SNIPPETS):
+            for mode in ("normal", "partial"):
+                out.append({"id": "hostile%d%s" % (i, mode[0]), "seed": 1000 + i, "stream": "raw-bytes", "doc": {}, "opts": [["version", "us"]],
+                            "mode": mode, "version_comment": False, "raw": list(text.encode("utf-8")), "link": False})
+        return out
 
     def nontrivial(self, c):
         return True
